@@ -180,6 +180,30 @@ def run(chk):
                         if not ok:
                             oracle_bad.append(dict(infol, op=f"solver agreement {b_} vs {a_}: {key_}", expected=np.atleast_1d(vals[a_][key_]).tolist(),
                                                    observed=np.atleast_1d(vals[b_][key_]).tolist()))
+    # nearly singular but valid models: coincident points with only the default jitter (diag omitted) or a tiny explicit one, amplitude > 1
+    # (the innovation variance of a repeated point is the jitter itself, 1e-8 .. 1e-9 of the diagonal)
+    xs_ = np.sort(rng.uniform(0, 4, size=7))
+    xs_[2] = xs_[1]
+    xs_[5] = xs_[4] = xs_[3]
+    ys_ = rng.normal(size=7)
+    ys_[2], ys_[5], ys_[4] = ys_[1], ys_[3], ys_[3]      # consistent data at the repeated points (keeps the quadratic form moderate)
+    for kname_, kern_ in (("Matern32(sigma=2)", qsm_.Matern32(jnp.asarray(1.3), jnp.asarray(2.0))), ("3*SHO+Exp", 3.0 * qsm_.SHO(jnp.asarray(1.1), jnp.asarray(2.0)) + qsm_.Exp(jnp.asarray(0.7), jnp.asarray(1.5)))):
+        for dname_, dkw_ in (("default jitter", {}), ("diag=2e-9", {"diag": jnp.asarray(2e-9)})):
+            vals_ = {}
+            for sname_, scls_ in (("direct", DirectSolver), ("quasisep", QuasisepSolver), ("kalman", KalmanSolver)):
+                hist["near-singular/" + sname_] = hist.get("near-singular/" + sname_, 0) + 1
+                try:
+                    g_ = GaussianProcess(kern_, jnp.asarray(xs_), solver=scls_, **dkw_)
+                    vals_[sname_] = dict(lp=float(g_.log_probability(jnp.asarray(ys_))), norm=float(g_.solver.normalization()))
+                except Exception as e:  # noqa: BLE001
+                    oracle_bad.append(dict(op=f"log_probability [{sname_}] with {dname_} on coincident points", kernel=kname_, observed=f"raised {type(e).__name__}: {str(e)[:80]}"))
+            for b_ in ("quasisep", "kalman"):
+                if "direct" in vals_ and b_ in vals_:
+                    for key_ in ("lp", "norm"):
+                        wa_, gb_ = vals_["direct"][key_], vals_[b_][key_]
+                        if np.isfinite(wa_) and not abs(wa_ - gb_) <= 1e-5 * max(1.0, abs(wa_)):
+                            oracle_bad.append(dict(op=f"solver agreement {b_} vs direct with {dname_} on coincident points: {key_}", kernel=kname_, x=xs_.tolist(), y=ys_.tolist(),
+                                                   expected=wa_, observed=gb_))
     # single precision (64-bit types switched off): the three solvers agree on log probability and normalisation, the dense and the
     # quasiseparable one on the conditional process, to single-precision accuracy
     for kname_, mk_, _kfun, x32, dg32, mu32, y32, xt32, fam32 in gpcases.float32_models(np.random.default_rng(chk.seed + 32)):
